@@ -27,6 +27,7 @@ type checker struct {
 	sampled atomic.Bool
 
 	evalReal, evalMemo, sysFallthrough, stateReads, lookups, statesOpened, statesRefused atomic.Int64
+	v2ViewDeclaredNotFound, v2ViewDeclaredFound, v2FutureClassVisible                    atomic.Int64
 }
 
 // pass memoises the deep hash per entry pointer. Only the 16-byte digest is kept (the canonical serialisation of an
@@ -168,6 +169,29 @@ func diffEq(a, b *core.StateDiff) bool {
 	}
 	if len(a.DeclaredV0Classes) != len(b.DeclaredV0Classes) || len(a.MigratedClasses) != len(b.MigratedClasses) {
 		return false
+	}
+	for h, c := range a.MigratedClasses {
+		if w, ok := b.MigratedClasses[h]; !ok || w != c {
+			return false
+		}
+	}
+	v0 := map[felt.Felt]int{}
+	for _, h := range a.DeclaredV0Classes {
+		if h == nil {
+			return false
+		}
+		v0[*h]++
+	}
+	for _, h := range b.DeclaredV0Classes {
+		if h == nil {
+			return false
+		}
+		v0[*h]--
+	}
+	for _, n := range v0 {
+		if n != 0 {
+			return false
+		}
 	}
 	return feltMapEq(a.Nonces, b.Nonces) && feltMapEq(a.DeployedContracts, b.DeployedContracts) &&
 		feltMapEq(a.DeclaredV1Classes, b.DeclaredV1Classes) && feltMapEq(a.ReplacedClasses, b.ReplacedClasses)
@@ -532,6 +556,39 @@ func (c *checker) probe(viol func(string, map[string]any), what, tag string, cn 
 		} else if !declared && err == nil {
 			viol(key("compiled-class-hash"), det(map[string]any{"class": h.String(), "want": "not found"}))
 		}
+		// the blake2s-based (V2) hash: the one a migration of the view's diffs delivers, else the one the canonical
+		// base holds for a Sierra class declared below the view; a class nobody declared is not found.
+		casm2, err2 := sr.CompiledClassHashV2(&sh)
+		c.stateReads.Add(1)
+		switch {
+		case baseHas && rec.Sierra:
+			want := rec.CasmV2
+			if got := felt.Felt(casm2); err2 != nil || !got.Equal(&want) {
+				viol(key("compiled-class-hash-v2"), det(map[string]any{"class": h.String(), "got": got.String(), "want": want.String(), "err": fmt.Sprint(err2), "migrated_by_view": rec.Migrated}))
+			}
+		case !declared && err2 == nil && futureSierra(cn, h):
+			// TOLERANCE: juno's historical state readers answer CompiledClassHashV2 from the class's metadata without
+			// looking at the block number (core/state/history.go, core/deprecatedstate/history.go: CompiledClassHashV2
+			// delegates to the head state), so a Sierra class that the canonical chain declares ABOVE the view's base
+			// already has a V2 hash in the base state (CompiledClassHash and Class are height-aware and are demanded).
+			// That is a property of the canonical history reader (C03's subject), not of the overlay: counted, not demanded.
+			c.v2FutureClassVisible.Add(1)
+		case !declared:
+			if err2 == nil {
+				viol(key("compiled-class-hash-v2"), det(map[string]any{"class": h.String(), "got": (*felt.Felt)(&casm2).String(), "want": "not found"}))
+			}
+		case rec.Sierra:
+			// OBSERVED, NOT DEMANDED: a Sierra class declared by the view itself. pending.State answers the V2 hash from
+			// MigratedClasses or the base only, so such a class is not found although the stored state would answer the
+			// declared hash once the same diff is applied (>= 0.14.1). The property speaks about the state diffs being
+			// overlaid; whether the V2 accessor must derive from declared_classes is a protocol-version question that is
+			// outside it. Counted, reported to the main session, never a violation.
+			if err2 != nil {
+				c.v2ViewDeclaredNotFound.Add(1)
+			} else {
+				c.v2ViewDeclaredFound.Add(1)
+			}
+		}
 	}
 }
 
@@ -574,6 +631,12 @@ func (c *checker) selectCanons(base uint64) []*canon {
 		}
 	}
 	return out
+}
+
+// futureSierra: does the canonical chain, as it stands, declare h as a Sierra class (at whatever height)?
+func futureSierra(cn *canon, h felt.Felt) bool {
+	rec, ok := cn.entries[len(cn.entries)-1].State.Classes[h]
+	return ok && rec.Sierra
 }
 
 // baseClass: is the class declared in the canonical base (i.e. in the model but not by the view's own diffs)?
